@@ -330,6 +330,19 @@ func judgeC15(r *seqRun) {
 			r.viol("output-not-json", "output-not-json:"+r.lastKind(), fmt.Sprintf("successful Apply returned %q, which is not well-formed JSON (%v)", r.obs.Out, err))
 		}
 		r.ctx.Count("wellformedness_checked_outside_value_domain", 1)
+		// ... and so is "ApplyIndent returns exactly Apply's output re-indented": a relation between two outputs
+		// of the library, whatever the value is
+		if _, err := rj.Parse(r.obs.Out); err == nil {
+			for _, ind := range []string{" ", "\t"} {
+				oi := r.exec(ind)
+				r.ctx.Count("indent_runs", 1)
+				if oi.Panic != "" || oi.Err != "" {
+					r.viol("indent-fails", "indent-fails", fmt.Sprintf("Apply succeeds with %q, ApplyIndent(%q) gives err=%q panic=%q", r.obs.Out, ind, oi.Err, oi.Panic))
+				} else if want := rj.Indent(r.obs.Out, ind); !bytes.Equal(oi.Out, want) {
+					r.viol("indent-differs", "indent-differs", fmt.Sprintf("ApplyIndent(%q)=%q, Apply re-indented=%q", ind, oi.Out, want))
+				}
+			}
+		}
 	}
 	if !judgeResult(r, false) {
 		return
@@ -420,4 +433,62 @@ func judgeC18(r *seqRun) {
 		return
 	}
 	judgeResult(r, false)
+}
+
+// presencePhase (C08): documents that repeat a member name have no reference value, but "an operation
+// that cannot be applied fails" still needs ONE notion of whether a member is there. After k removes of a
+// member (k = 0..3) the four operations that need it to exist - remove, copy from it, move from it,
+// replace - must all succeed or all fail. The library is compared with itself; nothing is assumed
+// about which of the repeated members counts.
+func presencePhase() *seqProp {
+	docs := []string{`{"a":1,"b":2,"a":3}`, `{"a":1,"a":1}`, `{"o":{"k":1,"\u006b":2,"x":true}}`, `[0,{"a":1,"a":2}]`, `{"a":null,"a":1,"b":{"a":1,"a":null}}`,
+		`{"\ud800":1,"\udc00":2}`, `{"a":1,"b":2}`, `{"a":{"a":1,"a":2},"a":{"a":3}}`}
+	ptrs := map[string][]string{docs[0]: {"/a", "/b"}, docs[1]: {"/a"}, docs[2]: {"/o/k", "/o/x"}, docs[3]: {"/1/a"}, docs[4]: {"/a", "/b/a"},
+		docs[5]: {"/\ufffd"}, docs[6]: {"/a", "/c"}, docs[7]: {"/a", "/a/a"}}
+	p := &seqProp{ID: "C08", Opts: []r69.Options{{Neg: true, EscapeHTML: true}, {Neg: false, EscapeHTML: false}},
+		Rule: "PRESENCE on 8 documents with REPEATED member names (no value oracle): after k = 0..3 removes of a member, remove / copy-from / move-from / replace of it must all succeed or all fail, and a failure returns no document"}
+	p.Scripts = func() []seqScript {
+		var out []seqScript
+		for _, d := range docs {
+			for _, ptr := range ptrs[d] {
+				var pre []r69.Op
+				for k := 0; k <= 3; k++ {
+					out = append(out, seqScript{d, append(append([]r69.Op(nil), pre...), r69.Op{Kind: "remove", Path: ptr})})
+					pre = append(pre, r69.Op{Kind: "remove", Path: ptr})
+				}
+			}
+		}
+		return out
+	}
+	p.Judge = func(r *seqRun) {
+		base := r.ops
+		last := base[len(base)-1]
+		outcome := map[string]impl.Obs{"remove": r.obs}
+		dest := "/zzq"
+		if r.doc.K == rj.Arr {
+			dest = "/-"
+		}
+		for _, alt := range []r69.Op{{Kind: "copy", From: last.Path, Path: dest}, {Kind: "move", From: last.Path, Path: dest}, {Kind: "replace", Path: last.Path, Value: rj.MustParse(`1`), HasValue: true}} {
+			r.ops = append(append([]r69.Op(nil), base[:len(base)-1]...), alt)
+			outcome[alt.Kind] = r.exec("")
+		}
+		r.ops = base
+		r.ctx.Count("presence_groups", 1)
+		for k, o := range outcome {
+			if o.Panic != "" {
+				r.viol("panic", "panic:"+impl.PanicSite(o.Panic), k+": "+o.Panic)
+				return
+			}
+			if o.Err != "" && !o.OutNil {
+				r.viol("document-on-failure", "document-on-failure:"+k, fmt.Sprintf("%s failed with %q and a document %q", k, o.Err, o.Out))
+			}
+		}
+		ok := outcome["remove"].Err == ""
+		for _, k := range []string{"copy", "move", "replace"} {
+			if (outcome[k].Err == "") != ok {
+				r.viol("presence-disagrees", "presence-disagrees:remove-vs-"+k, fmt.Sprintf("after %d earlier removes of %s: remove err=%q but %s err=%q - the library has two answers to whether the member is there", len(base)-1, last.Path, outcome["remove"].Err, k, outcome[k].Err))
+			}
+		}
+	}
+	return p
 }
